@@ -120,7 +120,10 @@ def gen_function(contract, contracts, known=()):
         specs = dict(zip(names, combo))
         case_tag = ""
         consts = {n: s.value for n, s in specs.items() if isinstance(s, C.TConst) and isinstance(contract.params[n], C.TOneOf)}
-        tagged = {n: s.value for n, s in specs.items() if hasattr(s, "value") and len(contract.params[n].cases()) > 1}
+        tagged = {}
+        for (n, s), cs in zip(specs.items(), case_lists):
+            if len(cs) > 1:
+                tagged[n] = s.value if hasattr(s, "value") else f"{type(s).__name__[1:]}{[id(c) for c in cs].index(id(s))}"
         if tagged:
             case_tag = "[" + ",".join(f"{k}={v}" for k, v in tagged.items()) + "]"
         interp = new_interp(contracts)
